@@ -256,13 +256,16 @@ def mutate_inside(rng, data, lo, hi, how):
     return bytes(b)
 
 
-def gen_file(rng):
-    """-> (bytes, kind, layout or None); layout only for the well-formed kinds"""
-    kind = rng.choice(["plain"] * 10 + ["sample", "sample-cut", "truncated", "hdr-size-small", "hdr-size-big", "count-small", "count-big",
+ASF_KINDS = ["plain"] * 10 + ["sample", "sample-cut", "truncated", "hdr-size-small", "hdr-size-big", "count-small", "count-big",
                                         "obj-size-small", "obj-size-big", "ext-datasize-small", "ext-datasize-big", "sub-size-bad",
                                         "ext-junk", "ext-reserved", "ext-in-ext", "header-in-header", "misplaced", "duplicates",
                                         "two-ext", "bad-cd", "bad-ecd", "bad-ml", "bad-fileprops", "bad-codeclist", "bad-streamprops",
-                                        "tiny", "not-asf", "no-rest", "junk-after", "flip"])
+                                        "tiny", "not-asf", "no-rest", "junk-after", "flip"]
+
+
+def gen_file(rng, kind=None):
+    """-> (bytes, kind, layout or None); layout only for the well-formed kinds; `kind` forces what is otherwise drawn"""
+    kind = kind or rng.choice(ASF_KINDS)
     lay = gen_plain(rng)
     top, rest = lay["top"], lay["rest"]
     data = render_layout(top, rest)
@@ -859,10 +862,15 @@ def run(ctx):
             "succeeds" if k0 == "ok" else classify(r0) if k0 == "exc" else k0), desc0)
     reqs.append(("asf op=save data=%s tags=%s pad=default" % (hx(d0), enc_tags(list(a0.tags))),
                  "err mutagen" if k0 == "exc" and isinstance(r0, MutagenError) else "ok" if k0 == "ok" else classify(r0), desc0))
-    for i in range(n):
+    strat = [(kd, fop) for kd in sorted(set(ASF_KINDS)) if kd not in ("sample", "sample-cut") for fop in ("save", "delete")]
+    for i in range(n + len(strat)):
         if i < len(forced):
             data, kind, op = forced[i]
             lay = None
+        elif i < len(forced) + len(strat):
+            # every kind of the generator once per operation (a stratified pass) before the random draws
+            data, kind, lay = gen_file(rng, kind=strat[i - len(forced)][0])
+            op = strat[i - len(forced)][1]
         else:
             data, kind, lay = gen_file(rng)
             op = rng.choice(["save", "save", "save", "save", "delete", "save2"])
